@@ -78,6 +78,10 @@ pub(in crate::server) struct CloudServer<SVC: Service> {
     /// a concurrent change in the service.
     #[cfg(test)]
     add_version_intercept: Option<InterceptFn<SVC>>,
+
+    /// Verification hook: values for the next random draws, and a default once they are used up.
+    #[cfg(gothenburgbitfactory_taskchampion_verif)]
+    verif_draws: std::sync::Mutex<(std::collections::VecDeque<u8>, Option<u8>)>,
 }
 
 const LATEST: &str = "latest";
@@ -103,6 +107,8 @@ impl<SVC: Service> CloudServer<SVC> {
             cleanup_probability: DEFAULT_CLEANUP_PROBABILITY,
             #[cfg(test)]
             add_version_intercept: None,
+            #[cfg(gothenburgbitfactory_taskchampion_verif)]
+            verif_draws: Default::default(),
         })
     }
 
@@ -165,6 +171,13 @@ impl<SVC: Service> CloudServer<SVC> {
 
     /// Generate a random integer in (0..255) for use in probabalistic decisions.
     fn randint(&self) -> Result<u8> {
+        #[cfg(gothenburgbitfactory_taskchampion_verif)]
+        {
+            let mut draws = self.verif_draws.lock().unwrap();
+            if let Some(v) = draws.0.pop_front().or(draws.1) {
+                return Ok(v);
+            }
+        }
         use rand::SecureRandom;
         let mut randint = [0u8];
         rand::SystemRandom::new()
@@ -385,6 +398,26 @@ impl<SVC: Service> CloudServer<SVC> {
             return Ok(None);
         };
         Ok(Some((version_id, name)))
+    }
+}
+
+/// Verification hooks: access for `cloud::verif`.
+#[cfg(gothenburgbitfactory_taskchampion_verif)]
+impl<SVC: Service> CloudServer<SVC> {
+    pub(in crate::server) fn verif_service_mut(&mut self) -> &mut SVC {
+        &mut self.service
+    }
+
+    pub(in crate::server) async fn verif_cleanup(&mut self) -> Result<()> {
+        self.cleanup().await
+    }
+
+    pub(in crate::server) fn verif_set_draws(&mut self, draws: Vec<u8>, default: Option<u8>) {
+        *self.verif_draws.lock().unwrap() = (draws.into(), default);
+    }
+
+    pub(in crate::server) fn verif_cleanup_probability(&self) -> u8 {
+        self.cleanup_probability
     }
 }
 
